@@ -182,7 +182,7 @@ def handle (line : String) : String :=
       | some a, some b, some e =>
         match kind with
         | "std" => six (eqVec s a b e) (neVec s a b e) (ltVec s a b e) (gtVec s a b e) (leVec s a b e) (geVec s a b e)
-        | "fv" => if a.length != b.length || a.length == 0 || a.length > 4 then "bad-op" else
+        | "fv" => if a.length != b.length || a.length == 0 || a.length > 8 || a.length == 7 then "bad-op" else
                   s!"eq={showB (eqFV s a b e)} ne={showB (neFV s a b e)}"
         | _ => "bad-op"
       | _, _, _ => "bad-op"
